@@ -1,3 +1,3 @@
 From Coq Require Import ExtrOcamlBasic.
 From GS Require Import Num Loops Cellwise Estimator_gen C15_VarioSpec C09_Lists C09_Removal C09_Model.
-Extraction "c09_model.ml" proto_anchor unstructured_spec take_cols isclose pre_select keep_idx pre_mask pre_no_data pre_drop_missing pre_dirs ang2dir_row sep_test pre_sample sturges std_bins std_bins_kw pre_edges centers generate_grid directional.
+Extraction "c09_model.ml" proto_anchor unstructured_spec take_cols isclose pre_select keep_idx pre_mask pre_no_data pre_drop_missing pre_dirs ang2dir_row sep_test pre_sample sturges std_bins std_bins_kw pre_edges centers generate_grid axis_mask axis_masked axis_estimate directional.
